@@ -35,7 +35,8 @@ func (q Query) Execute(j *journal.Builder, r *Report) *journal.Processor {
 			for _, com := range coms {
 				total += d.Performance.V1[com]
 			}
-			for com, v := range d.Performance.V1 {
+			for _, com := range coms {
+				v := d.Performance.V1[com]
 				ss := q.Universe.Locate(com)
 				level, suffix, ok := q.Mapping.Level(strings.Join(ss, ":"))
 				if ok && level < len(ss)-suffix {
